@@ -13,6 +13,7 @@ import itertools
 
 from harness import ev, tlc
 from checks import eval_common as ec
+from checks.eval_common import set_debug
 
 MC_CFG = """SPECIFICATION Spec
 CONSTANT Big = %d
@@ -105,6 +106,7 @@ def run(ctx):
                 for roles in ([], ['r']):
                     dr = rng.random() < 0.25
                     via = rng.choice(['rules_obj', 'rules_obj', 'own_default', 'dict', 'ctor', 'ctor_own_default'])
+                    set_debug(rng.random() < 0.25)
                     cases.append(ec.enforce_case(rules, {'by': 'name', 'name': query, 'doraise': dr}, {}, {'roles': roles},
                                                  dflt=dflt, want='c03', via=via))
     # sessions: the rule store of one long-lived enforcer is changed through set_rules
@@ -137,6 +139,7 @@ def run(ctx):
         ctx.violation('session:decision-ignores-current-rule-store', 'after the rule store was changed through the API a decision is not the one the current store gives',
                       {'history': sessions[si].log[:40], 'failing_event_index': evi, 'default_rule': repr(sessions[si].dflt)})
     ctx.cover['sessions'] = len(sessions)
+    set_debug(False)
     bad = ec.judge(ctx, cases)
     for c in bad:
         qn = c['call']['name']
